@@ -173,3 +173,52 @@ def flag_position(ctx):
                         'the activation flag is read (line %d) from a pair that is not known to be the head of its '
                         'chain (no front/get_latest in its provenance)' % ln, body.where(ln))
     ctx.floor(n, 3, 'reads of the activation flag')
+
+
+@rule('C18', 'every-secret-tried', configs=('default', 'p256'))
+def every_secret_tried(ctx):
+    """In full_decaps every activated master secret is tried against every encapsulation: in the classic branch
+    both variants of a secret reach session_key; in the hybridized branch only classic secrets may be skipped."""
+    from .c13 import loop_depths
+    from .c01 import own_loop
+    F = ctx.F
+    body = F.fn('core::primitives::full_decaps')
+    depth, dom = loop_depths(body)
+    nexts = [c for c in body.calls(r'^std::iter::Iterator::next$') if depth.get(c.b, 0) > 0]
+    inner = [c for c in nexts if 'linked_list::Iter' in (c.self_ty or '') and flags.PAIR_TY in (c.self_ty or '')]
+    ctx.floor(len(inner), 2, 'innermost loops over a chain of master secrets')
+    rsk = F.adts['core::RightSecretKey']
+    names = [v['name'] for v in rsk['variants']]
+    tests = activation_tests(F, body)
+    for c in inner:
+        L = own_loop(body, c.b, dom)
+        t = body.term(c.target)
+        some_t = [bb for v, bb in t['cases'] if v == 1] if t['k'] == 'switch' else []
+        if not some_t:
+            ctx.bad(body.key, 'loop shape', 'cannot decode the loop at line %d' % c.ln, c.where())
+            continue
+        sks = [x.b for x in body.calls(r'traits::Nike::session_key$') if x.b in L]
+        hybrid = any(x.b in L for x in body.calls(r'traits::Kem::dec$'))
+        avoid = []
+        # permitted bypasses: the not-activated edge ...
+        for (tb, te) in tests:
+            tt = body.term(tb)
+            for v, bb in tt['cases'] + [[None, tt['else']]]:
+                if te is not None and (tb, bb) != te:
+                    avoid.append((tb, bb))
+        # ... and, in the hybridized branch only, the non-Hybridized arm of the variant test
+        if hybrid:
+            for b in sorted(L):
+                tt = body.term(b)
+                if tt['k'] == 'switch' and is_place(tt['d']):
+                    _, d = lib.resolve_copy(body, op_local(tt['d']))
+                    if d is not None and d.kind == 'assign' and d.rv['k'] == 'discr' and 'RightSecretKey' in body.local_ty(d.rv['pl']['l']):
+                        hi = names.index('Hybridized')
+                        for v, bb in tt['cases'] + [[None, tt['else']]]:
+                            if v != hi:
+                                avoid.append((b, bb))
+        r = body.reach(some_t[0], avoid_blocks=sks, avoid_edges=avoid)
+        ctx.check(bool(sks) and c.b not in r, body.key, 'every activated secret reaches session_key (%s branch)' % ('hybridized' if hybrid else 'classic'),
+                  'in the %s branch of full_decaps an activated secret can be skipped without being tried (loop at line %d): rights '
+                  'opened only through such a secret are dropped from the re-encapsulation' % ('hybridized' if hybrid else 'classic', c.ln),
+                  'session_key on every path except the permitted bypasses', c.where())
